@@ -81,6 +81,8 @@ func c03(w *core.World, r *core.Report) {
 	ruleChunksAppend(w, r)
 	r.Rule("R03.11", "listpack entry stepping: back-length size table and per-encoding header sizes equal the published format", 2)
 	ruleListpackStep(w, r)
+	r.Rule("R03.13", "stream expansion: the master entry's field count has a single definition", 1)
+	ruleStreamMasterFields(w, r)
 	r.Rule("R03.12", "the database an entry is replayed into: tracked database starts unknown/fresh, changes only with selectDB's result, and every change is sent to the target before the next entry (shared with R01.6)", 4)
 	ruleDbTracking(w, r)
 }
@@ -954,5 +956,66 @@ func ruleListpackStep(w *core.World, r *core.Report) {
 		}
 		sort.Strings(bad)
 		r.Check(len(bad) == 0, "Listpack.Next/entry-size", f.Pos(), "every listpack encoding must advance the cursor by its header size (+ payload length for strings) + back length: %v", bad)
+	}
+}
+
+// ---------------------------------------------------------------- R03.13 stream master entry
+
+// ruleStreamMasterFields: inside one stream listpack the master entry fixes
+// the field names and their number for every entry flagged SAMEFIELDS. The
+// count that bounds the loop indexing the master's field list must therefore
+// have a single definition (the master entry's num-fields); if an entry with
+// its own fields can redefine it, later SAMEFIELDS entries are expanded with
+// the wrong number of values.
+func ruleStreamMasterFields(w *core.World, r *core.Report) {
+	f := fn(w, r, "(*pkg/rdb.StreamParser).ExecCmd")
+	if f == nil {
+		return
+	}
+	n := 0
+	for _, in := range core.Instrs(f) {
+		ia, ok := in.(*ssa.IndexAddr)
+		if !ok || ia.X.Type().String() != "[][]byte" {
+			continue
+		}
+		j, ok := ia.Index.(*ssa.Phi)
+		if !ok {
+			continue
+		}
+		// the bound j is compared with
+		for _, ref := range *j.Referrers() {
+			cmp, ok := ref.(*ssa.BinOp)
+			if !ok || cmp.Op != token.LSS || cmp.X != ssa.Value(j) {
+				continue
+			}
+			n++
+			leaves := map[ssa.Value]bool{}
+			seen := map[ssa.Value]bool{}
+			var walk func(v ssa.Value)
+			walk = func(v ssa.Value) {
+				if seen[v] {
+					return
+				}
+				seen[v] = true
+				if ph, ok := v.(*ssa.Phi); ok {
+					for _, e := range ph.Edges {
+						walk(e)
+					}
+					return
+				}
+				leaves[v] = true
+			}
+			walk(cmp.Y)
+			okOne := len(leaves) == 1
+			for l := range leaves {
+				if !isResultOf("(*pkg/redis/types.Listpack).NextInteger", -1)(l) {
+					okOne = false
+				}
+			}
+			r.Check(okOne, "StreamParser.ExecCmd/master-field-count", cmp.Pos(), "the number of values read for a SAMEFIELDS entry must be the master entry's field count and nothing else; it has %d definitions (an entry with its own fields overwrites it): later SAMEFIELDS entries of the listpack lose values or are misaligned", len(leaves))
+		}
+	}
+	if n == 0 {
+		r.Fail("StreamParser.ExecCmd/master-field-count", f.Pos(), "no loop over the master entry's fields found")
 	}
 }
